@@ -185,6 +185,7 @@ class UnitRegistry:
                 "in this registry."
             )
 
+        self._forget_prefixed(symbol)
         del self.lut[symbol]
         # any cached unit string (prefixed or compound) may mention the symbol
         self._unit_object_cache.clear()
@@ -211,6 +212,7 @@ class UnitRegistry:
                 "in this registry."
             )
 
+        self._forget_prefixed(symbol)
         if hasattr(base_value, "in_base"):
             new_dimensions = base_value.units.dimensions
             base_value = base_value.in_base("mks")
@@ -221,6 +223,21 @@ class UnitRegistry:
         self.lut[symbol] = (float(base_value), new_dimensions) + self.lut[symbol][2:]
         # any cached unit string (prefixed or compound) may mention the symbol
         self._unit_object_cache.clear()
+
+    def _forget_prefixed(self, symbol):
+        # prefixed forms of a prefixable symbol are derived on first use and
+        # stored in the table; drop the ones derived from the current entry
+        entry = self.lut[symbol]
+        if not entry[4]:
+            return
+        for prefix, (prefix_value, _) in unit_prefixes.items():
+            derived = self.lut.get(prefix + symbol)
+            if (
+                derived is not None
+                and not derived[4]
+                and derived[:3] == (entry[0] * prefix_value, entry[1], entry[2])
+            ):
+                del self.lut[prefix + symbol]
 
     def keys(self):
         """
